@@ -218,7 +218,8 @@ func (v *Element) Neg(x *Element) *Element {
 	v.l3, _ = bits.Sub64(0xffffffffffffffff, x.l3, c)
 	// x < p, so here is no carry
 
-	return v // no need to reduce
+	// p - 0 = p is not fully reduced.
+	return v.reduce()
 }
 
 // Mul sets v = x * y, and returns v.
